@@ -204,7 +204,7 @@ def cond_holds(env, cond):
 
 
 # ---- plan rules with a meaning in Model/PlanSem.v ---------------------------------------------------------------
-PLAN_OPS = {"filter", "empty", "limit", "order", "topn", "window", "join", "and", "list"}
+PLAN_OPS = {"filter", "empty", "limit", "order", "topn", "window", "join", "hashjoin", "and", "=", "list"}
 JOIN_KW = {"inner", "left_outer", "right_outer", "full_outer", "semi", "anti"}
 PLAN_CONDS = {"not_depend_on": "PNotDependOn"}
 # counterexamples (bindings of the pattern variables) for the plan rules that are NOT sound; a rule listed here gets a
@@ -249,7 +249,7 @@ def is_plan_rule_modelled(lhs, rhs, conds):
         if isinstance(r, str) or l[0] != "proj" or r[0] != "proj" or l[1][0] != r[1][0] or not all(no_proj(a) for a in l[1] + r[1]):
             return False
         ops = ops - {"proj"}
-    if not ops <= PLAN_OPS or not (ops - {"and", "list"}):
+    if not ops <= PLAN_OPS or not (ops - {"and", "list", "="}):
         return False
     for a in atoms_of(l, set()) | atoms_of(r, set()):
         if not (a.startswith("?") or a in ("true", "false", "null") or a in JOIN_KW or re.fullmatch(r"\d+", a)):
@@ -357,8 +357,9 @@ def translate(inventory, outdir):
                     psound_ids.append(idi)
                     info["plan_instances_sound"].append(f"{name} @ {ty}")
             else:
-                pobl_v.append(f"Lemma {idn}_sound : psound {idn}.\nProof. prule_sound. Qed.")
-                pobl_v.append(f"Lemma {idn}_buildable : pbuildable {idn}.\nProof. prule_buildable. Qed.")
+                hj = any(o == "hashjoin" for o, _ in ops_of(pl, set()) | ops_of(pr, set()))
+                pobl_v.append(f"Lemma {idn}_sound : psound {idn}.\nProof. {'prule_sound_hj' if hj else 'prule_sound'}. Qed.")
+                pobl_v.append(f"Lemma {idn}_buildable : pbuildable {idn}.\nProof. {'prule_buildable_hj' if hj else 'prule_buildable'}. Qed.")
                 psound_ids.append(idn)
                 info["plan_sound"].append(name)
         if not is_expr_rule(lhs, rhs):
